@@ -346,16 +346,21 @@ Record link (st : state) : Prop := {
 
 Lemma link_init cur nss : link (minit cur nss).
 Proof.
-  split; simpl; try discriminate.
-  intros rns m key _. unfold name_in_module. simpl. discriminate.
+  split; simpl; try discriminate; try (intros rns m key _; unfold name_in_module; simpl; discriminate).
 Qed.
+
+Lemma probes_fst x : mem_str (munge x) (probes x) = true.
+Proof. unfold probes. rewrite mem_str_cons, str_eqb_refl. reflexivity. Qed.
+
+Lemma probes_snd x : mem_str (munge_ab x) (probes x) = true.
+Proof. unfold probes. rewrite !mem_str_cons, str_eqb_refl. simpl. apply orb_true_r. Qed.
 
 Lemma nim_probes st m x key : name_in_module st m x = Some key -> mem_str key (probes x) = true.
 Proof.
-  unfold name_in_module, probes. destruct (ahas (m, munge x) (mods st)).
-  - intro H. inversion H. simpl. rewrite str_eqb_refl. reflexivity.
+  unfold name_in_module. destruct (ahas (m, munge x) (mods st)).
+  - intro H. inversion H. apply probes_fst.
   - destruct (ahas (m, munge_ab x) (mods st)); [|discriminate].
-    intro H. inversion H. simpl. rewrite str_eqb_refl. apply orb_true_r.
+    intro H. inversion H. apply probes_snd.
 Qed.
 
 (** writing one module global: the namespace-probe half of the invariant survives if the
@@ -374,13 +379,13 @@ Proof.
   set (x := var_ns_sym m).
   destruct (key_eqb (rns, munge x) (c, wk)) eqn:K1; simpl.
   - intro H. inversion H. subst key. rewrite K1. f_equal. apply New; [exact Hm|].
-    apply key_eqb_eq in K1. inversion K1. subst. unfold probes. simpl. rewrite str_eqb_refl. reflexivity.
+    apply key_eqb_eq in K1. inversion K1. subst. apply probes_fst.
   - destruct (ahas (rns, munge x) (mods st)) eqn:A1.
     + intro H. inversion H. subst key. rewrite K1. apply Old; [exact Hm|].
       unfold name_in_module. fold x. rewrite A1. reflexivity.
     + destruct (key_eqb (rns, munge_ab x) (c, wk)) eqn:K2; simpl.
       * intro H. inversion H. subst key. rewrite K2. f_equal. apply New; [exact Hm|].
-        apply key_eqb_eq in K2. inversion K2. subst. unfold probes. simpl. rewrite str_eqb_refl. apply orb_true_r.
+        apply key_eqb_eq in K2. inversion K2. subst. apply probes_snd.
       * destruct (ahas (rns, munge_ab x) (mods st)) eqn:A2; [|discriminate].
         intro H. inversion H. subst key. rewrite K2. apply Old; [exact Hm|].
         unfold name_in_module. fold x. rewrite A1, A2. reflexivity.
@@ -402,11 +407,11 @@ Proof.
         rewrite key_eqb_refl. reflexivity.
       * intro H. rewrite (Lv _ _ _ H).
         destruct (key_eqb (m0, munge n0) (s_cur (sp st), munge n)) eqn:K2; [|reflexivity].
-        exfalso. apply key_eqb_eq in K2. inversion K2. subst m0.
+        exfalso. apply key_eqb_eq in K2. injection K2 as Em En. subst m0.
         pose proof (forallb_In _ _ _ S1 (aget_interned_names _ _ _ _ H)) as X. simpl in X.
         apply orb_true_iff in X as [X|X].
         -- apply str_eqb_eq in X. subst n0. rewrite key_eqb_refl in K. discriminate.
-        -- rewrite H1, str_eqb_refl in X. discriminate.
+        -- rewrite En, str_eqb_refl in X. discriminate.
     + apply (lk_ns_write st (mkS _ _ _ _ _)); [reflexivity | exact Ln |].
       intros m0 Hm P. exfalso.
       pose proof (forallb_In _ _ _ S2 (proj1 (mem_str_In _ _) Hm)) as X. simpl in X.
@@ -438,9 +443,9 @@ Proof.
     split; simpl.
     + intros m0 n0 r H. rewrite ?aget_aset. rewrite (Lv _ _ _ H).
       destruct (key_eqb (m0, munge n0) (s_cur (sp st), var_ns_sym m)) eqn:K2; [|reflexivity].
-      exfalso. apply key_eqb_eq in K2. inversion K2. subst m0.
+      exfalso. apply key_eqb_eq in K2. injection K2 as Em En. subst m0.
       pose proof (forallb_In _ _ _ S1 (aget_interned_names _ _ _ _ H)) as X. simpl in X.
-      rewrite H2, str_eqb_refl in X. discriminate.
+      rewrite En, str_eqb_refl in X. discriminate.
     + apply (lk_ns_write st (mkS _ _ _ _ _)); [reflexivity | exact Ln |].
       intros m0 Hm P.
       pose proof (forallb_In _ _ _ S2 (proj1 (mem_str_In _ _) Hm)) as X. simpl in X.
@@ -453,9 +458,9 @@ Proof.
     split; simpl.
     + intros m0 n0 r H. rewrite ?aget_aset. rewrite (Lv _ _ _ H).
       destruct (key_eqb (m0, munge n0) (s_cur (sp st), var_ns_sym m)) eqn:K2; [|reflexivity].
-      exfalso. apply key_eqb_eq in K2. inversion K2. subst m0.
+      exfalso. apply key_eqb_eq in K2. injection K2 as Em En. subst m0.
       pose proof (forallb_In _ _ _ S1 (aget_interned_names _ _ _ _ H)) as X. simpl in X.
-      rewrite H2, str_eqb_refl in X. discriminate.
+      rewrite En, str_eqb_refl in X. discriminate.
     + apply (lk_ns_write st (mkS _ _ _ _ _)); [reflexivity | exact Ln |].
       intros m0 Hm P.
       pose proof (forallb_In _ _ _ S2 (proj1 (mem_str_In _ _) Hm)) as X. simpl in X.
@@ -499,7 +504,7 @@ Proof.
   rewrite NM. destruct (str_eqb m rns) eqn:E.
   - apply str_eqb_eq in E. subst rns. rewrite G. left. reflexivity.
   - destruct (name_in_module st rns (var_ns_sym m)) as [an|] eqn:NA; [|right; reflexivity].
-    rewrite (Ln _ _ _ (wf_vars _ W _ _ A) NA). rewrite G. left. reflexivity.
+    rewrite (Ln _ _ _ (wf_vars _ W _ _ A) NA). cbv iota beta. rewrite G. left. reflexivity.
 Qed.
 
 (** roots are only changed by def when the history has no alter-var-root *)
